@@ -319,7 +319,7 @@ pub fn run_history_property<H: HB>(prop: &'static str, tier: Tier) -> Outcome {
     }
     // E2: deep trees
     let seed_alpha = alpha & !(A_APPEND | A_CLONE | A_CAPACITY | A_PAYLOAD) | A_APPEND;
-    let bin_sizes: Vec<usize> = if q { vec![7, 8] } else { vec![7, 8, 9, 10, 11, 12, 13, 14, 15, 16] };
+    let bin_sizes: Vec<usize> = if q { vec![7, 8] } else { vec![7, 8, 9, 10, 11, 12, 13, 14, 15] };
     for n in bin_sizes {
         let mut c = seeds_cfg(prop, n, &REL_BIN, seed_alpha);
         c.kinds = kinds.clone();
@@ -329,7 +329,7 @@ pub fn run_history_property<H: HB>(prop: &'static str, tier: Tier) -> Outcome {
             return out;
         }
     }
-    let seg_sizes: Vec<usize> = if q { vec![16, 17] } else { vec![17, 18, 19, 20, 31, 32, 33] };
+    let seg_sizes: Vec<usize> = if q { vec![16, 17] } else { vec![16, 17, 18, 19, 20, 31, 32, 33] };
     for n in seg_sizes {
         let mut c = seeds_cfg(prop, n, &REL_TERN, seed_alpha);
         c.kinds = kinds.clone();
@@ -497,7 +497,7 @@ pub fn run_c07<H: HB>(tier: Tier) -> Outcome {
     let q = tier == Tier::Quick;
     let th = threads();
     // (a) constructors: all vectors with repeats, From<Vec> first-wins, FromIterator last-wins, all hints
-    let (k, m, len) = if q { (3u32, 2usize, 4usize) } else { (3, 3, 4) };
+    let (k, m, len) = if q { (3u32, 3usize, 4usize) } else { (3, 3, 5) };
     let prios: Vec<i32> = (0..m as i32).collect();
     let keys: Vec<u32> = (0..k).collect();
     let seqs = pair_seqs(&keys, &prios, len);
@@ -592,13 +592,13 @@ pub fn run_c07<H: HB>(tier: Tier) -> Outcome {
         }
     }
     // deep receivers: both sides of the push-versus-rebuild threshold
-    let sizes: Vec<usize> = if q { vec![8, 9, 16] } else { vec![7, 8, 9, 15, 16, 17, 32, 33] };
+    let sizes: Vec<usize> = if q { vec![8, 9, 16, 17] } else { vec![7, 8, 9, 10, 15, 16, 17, 31, 32, 33, 64, 65] };
     for n in sizes {
         let t0 = Instant::now();
         let mut cfg = seeds_cfg(prop, n, &REL_TERN, A_APPEND | A_CONVERT);
         cfg.append_max = if q { 2 } else { 3 };
         cfg.deep = n <= 9;
-        let seeds = if n <= 8 && !q || n <= 7 { f_bin(n) } else { f_seg(n) };
+        let seeds = if n <= 9 && !q || n <= 7 { f_bin(n) } else if n > 40 { f_struct(n) } else { f_seg(n) };
         let mut ex = Explorer::<H>::new(&cfg);
         ex.collect = Some(Default::default());
         let mut roots = vec![];
@@ -654,10 +654,10 @@ pub fn run_c10<H: HB>(tier: Tier) -> Outcome {
     let fault_alpha = A_CORE | A_BULK | A_CLONE | A_BORROWED | A_ITER_MUT_BACK | A_ITER_MUT_FORGET | A_DRAIN_FORGET | A_CAPACITY;
     let cont_alpha = A_PUSH | A_CHANGE | A_REMOVE | A_POP | A_POP_IF | A_RETAIN | A_ITER_MUT | A_EXTEND | A_APPEND | A_CLEAR_DRAIN | A_CLONE | A_CONVERT | A_CAPACITY;
     let mut layers: Vec<(String, Cfg, Vec<(bool, Root)>, Option<u64>, Cfg)> = vec![];
-    {
-        let (k, m) = if q { (3u32, 2usize) } else { (3, 3) };
+    for (k, m) in if q { vec![(3u32, 3usize)] } else { vec![(3, 3), (4, 2)] } {
         let prios: Vec<i32> = (0..m as i32).collect();
-        let cfg = base_cfg(prop, k, &prios, A_REACH);
+        let mut cfg = base_cfg(prop, k, &prios, A_REACH);
+        cfg.root_vec_len = if k > 3 { 1 } else { 2 };
         let mut roots = vec![];
         for d in [false, true] {
             for r in roots_for(&cfg) {
@@ -668,9 +668,9 @@ pub fn run_c10<H: HB>(tier: Tier) -> Outcome {
         cont.append_max = 1;
         layers.push((format!("every E1 state ({k} items x {m} priorities)"), cfg, roots, None, cont));
     }
-    for n in if q { vec![7usize, 8] } else { vec![7, 8, 9, 16] } {
+    for n in if q { vec![7usize, 8] } else { vec![7, 8, 9, 16, 17, 33] } {
         let cfg = seeds_cfg(prop, n, &[5, 15, 35], A_REACH);
-        let seeds = if q { f_struct(n) } else { f_seg(n) };
+        let seeds = if q || n > 8 { f_struct(n) } else { f_seg(n) };
         let mut roots = vec![];
         for d in [false, true] {
             for s in &seeds {
@@ -693,9 +693,10 @@ pub fn run_c10<H: HB>(tier: Tier) -> Outcome {
         let mut fault_cfg = cfg.clone();
         let deep = cfg.k > 6;
         fault_cfg.alphabet = if deep { fault_alpha & !(A_CAPACITY | A_BORROWED) } else { fault_alpha };
-        let e3cfg = E3Cfg { prop, fault_cfg, cont_cfg, max_faults: if q || deep { 1 } else { 2 }, depth: if deep { if q { 1 } else { 2 } } else if q { 2 } else { 3 }, threads: threads(), max_states: if q { 400_000 } else { 20_000_000 }, max_wall_s: if q { 40.0 } else { 1500.0 } };
+        let big = cfg.k == 4;
+        let e3cfg = E3Cfg { prop, fault_cfg, cont_cfg, max_faults: if q || deep || big { 1 } else { 2 }, depth: if deep { 1 } else if q || big { 2 } else { 3 }, threads: threads(), max_states: if q { 3_000_000 } else { 40_000_000 }, max_wall_s: if q { 40.0 } else { 600.0 } };
         let e3 = E3::<H>::new(&e3cfg);
-        let bases: Vec<FNode<H>> = nodes.iter().map(|n| FNode { q: n.q.clone(), faults: 0, depth: 0, base: std::sync::Arc::new((n.root.0, n.root.1.clone(), n.ops())), trail: None }).collect();
+        let bases: Vec<FNode<H>> = nodes.iter().map(|n| FNode { q: None, base_q: std::sync::Arc::new(n.q.clone()), faults: 0, depth: 0, base: std::sync::Arc::new((n.root.0, n.root.1.clone(), n.ops())), trail: None }).collect();
         let t0 = Instant::now();
         e3.run(bases);
         let st = &e3.stats;
@@ -703,7 +704,7 @@ pub fn run_c10<H: HB>(tier: Tier) -> Outcome {
         out.states += st.post_fault_states.load(AO::Relaxed);
         out.transitions += trans;
         out.validated += trans;
-        out.distinct_outcomes += st.outcomes.lock().unwrap().len() as u64;
+        out.distinct_outcomes += st.outcome_count();
         let per_class: serde_json::Map<String, Value> = (0..NCLASS).map(|c| (CLASS_NAMES[c].to_string(), json!(st.per_class[c].load(AO::Relaxed)))).collect();
         out.layers.push(json!({
             "layer": format!("E3 fault enumeration from {label}"),
@@ -913,7 +914,7 @@ pub fn run_c17<H: HB>(tier: Tier) -> Outcome {
         let mut c = seeds_cfg(prop, n, &REL_BIN, A_CAPACITY | A_CAPACITY_HUGE | A_POP | A_PUSH);
         c.deep = true;
         let seeds = if n <= 8 { f_bin(n) } else { f_seg(n) };
-        let depth = if q && n > 8 { 1 } else { 2 };
+        let depth = if (q && n > 8) || n > 17 { 1 } else { 2 };
         run_seeds::<H>(&mut out, &format!("E2 seeds of {n} elements: capacity calls and every operation (depth {depth})"), &c, seeds, depth, &no_probes);
         if !out.violations.is_empty() {
             return out;
@@ -1151,7 +1152,7 @@ pub fn run_miri(prop: &str) -> Outcome {
             cont.threads = 1;
             let e3cfg = E3Cfg { prop: "C10", fault_cfg, cont_cfg: cont, max_faults: 1, depth: 1, threads: 1, max_states: 100_000, max_wall_s: 3000.0 };
             let e3 = E3::<H>::new(&e3cfg);
-            let bases: Vec<FNode<H>> = nodes.iter().map(|n| FNode { q: n.q.clone(), faults: 0, depth: 0, base: std::sync::Arc::new((n.root.0, n.root.1.clone(), n.ops())), trail: None }).collect();
+            let bases: Vec<FNode<H>> = nodes.iter().map(|n| FNode { q: None, base_q: std::sync::Arc::new(n.q.clone()), faults: 0, depth: 0, base: std::sync::Arc::new((n.root.0, n.root.1.clone(), n.ops())), trail: None }).collect();
             e3.run(bases);
             let st = &e3.stats;
             let trans = st.transitions.load(AO::Relaxed);
